@@ -343,6 +343,12 @@ def justify_thrower(ctx, prog, lg, fn, n, nm, env, st):
                     m = re.match(r'^starts_with\((.*), basic_string\{"(.*)"\}\)$', a)
                     if m and m.group(1) == recv_c and len(m.group(2)) >= k and logic.entails(st, ("a", a), lg.axioms)[0]:
                         return True, "substr(%d) under starts_with(%s, \"%s\") (length >= %d)" % (k, recv_c, m.group(2), k)
+            # ... or a size fact: N < recv.size() with N >= k - 1
+            for f in st:
+                for a in logic.atoms_of(f):
+                    m = re.match(r'^\((\d+) < (.*)\.(size|length)\(\)\)$', a)
+                    if m and m.group(2) == recv_c and int(m.group(1)) >= k - 1 and logic.entails(st, ("a", a), lg.axioms)[0]:
+                        return True, "substr(%d) under %s" % (k, a)
             return False, "position %d is not covered by a known prefix of %s" % (k, recv_c)
         # sep / sep + 1 with sep = recv.find(...) and facts |- sep != npos
         base = pos
